@@ -260,6 +260,23 @@ macro_rules! serde_q {
                 if let Ok(s) = js_q {
                     texts.push(s);
                 }
+                // token-level format: every serde data-model call is visible (newtype wrappers, names, …)
+                let tq = uomh::tok::to_tok(&q).map(|t| format!("{:?}", t)).map_err(|e| e.to_string());
+                let tv = uomh::tok::to_tok(&v).map(|t| format!("{:?}", t)).map_err(|e| e.to_string());
+                writeln!($cx.out, "ser {} {} {} token {} {}", <$V as Val>::NAME, $bname, stringify!($m), enc(tq), enc(tv.clone())).unwrap();
+                // deserialization from tokens: same result and the same requests to the deserializer
+                if let Ok(tok) = uomh::tok::to_tok(&v) {
+                    use uomh::tok::Tok;
+                    let variants = vec![tok.clone(), Tok::Newtype("Quantity".to_string(), Box::new(tok.clone())), Tok::Seq(vec![tok.clone()]),
+                        Tok::Some(Box::new(tok.clone())), Tok::Str("1".to_string()), Tok::Unit, Tok::F64(1.5f64.to_bits()), Tok::I(-1), Tok::U(7)];
+                    for t in variants.into_iter().take(if k < 6 { 9 } else { 1 }) {
+                        let (rq, lq) = uomh::tok::from_tok::<QT>(&t);
+                        let (rv, lv) = uomh::tok::from_tok::<$V>(&t);
+                        let sq = match rq { Ok(q) => format!("ok:{}:{}", q.value.enc(), lq.join(",")), Err(_) => format!("err:{}", lq.join(",")) };
+                        let sv = match rv { Ok(v) => format!("ok:{}:{}", v.enc(), lv.join(",")), Err(_) => format!("err:{}", lv.join(",")) };
+                        writeln!($cx.out, "de {} {} {} token {} {} {}", <$V as Val>::NAME, $bname, stringify!($m), hex_str(&format!("{:?}", t)), hex_str(&sq), hex_str(&sv)).unwrap();
+                    }
+                }
             }
             for t in texts {
                 let dq = match g(|| serde_json::from_str::<QT>(&t)) { None => "PANIC".to_string(), Some(Ok(q)) => format!("ok:{}", q.value.enc()), Some(Err(_)) => "err".to_string() };
